@@ -35,12 +35,21 @@ CASE_TIMEOUT = {"quick": 900, "thorough": 6000}
 STRINGS = [
     "N{[>|3|][<]CC[>], [<|2|]CO[>][<]}|schulz_zimm(150, 120)|S{[>][<]CS[>]; [<]Cl[<]}|schulz_zimm(90, 70)|F",
     "{[][$]CC([$])C=O, [$|0.5|]CC([$])CO; [$][H], [$]O[]}|uniform(50, 150)|",
-    "OC{[>|0 0 1 0|][<]CC([>|2|])C(=O)OC, [<]CC[>][<]}|gauss(150, 30)|[H]",
+    "OC{[>|3 0 1 0|][<]CC([>|2|])C(=O)OC, [<]CC[>][<]}|gauss(60, 90)|[H]",
     "CC{[$][$]CC[$][$]}|uniform(12, 72)|COOC{[$][$]C[$][$]}|uniform(12, 72)|CO",
     "[H]{[>][<]CC([>])c1ccccc1[<]}|poisson(300)|CC{[>][<]CC([>])C(=O)OC[<]}|log_normal(200, 1.2)|C",
 ]
+# sibling strings: same fragments (identical fragment SMILES text), same descriptor texts, but descriptors on other atoms /
+# other weights: objects that a cache keyed too coarsely would confuse with the main string's tokens
+SIBLINGS = {
+    STRINGS[0]: "N{[>|3|][<]C([>])C, [<|2|]C([>])O[<]}|schulz_zimm(150, 120)|S{[>][<]C([>])S; [<]Cl[<]}|schulz_zimm(90, 70)|F",
+    STRINGS[1]: "{[][$]CCC([$])=O, [$|0.5|]CCC([$])O; [$][H], [$]O[]}|uniform(50, 150)|",
+    STRINGS[2]: "OC{[>|3 0 1 0|][<]CCC(=O)OC[>|2|], [<]C([>])C[<]}|gauss(60, 90)|[H]",
+    STRINGS[3]: "CC{[$][$]C([$])C[$]}|uniform(12, 72)|COOC{[$][$]C[$][$]}|uniform(12, 72)|CO",
+    STRINGS[4]: "[H]{[>][<]CCc1ccccc1[>][<]}|poisson(300)|CC{[>][<]CCC(=O)OC[>][<]}|log_normal(200, 1.2)|C",
+}
 OPS = ["P", "G1", "G2", "GG", "S", "E", "M", "RG", "SG", "AG", "FF", "EP", "SY", "GB"]
-SEEDS = (1, 2)
+SEEDS = (1, 2, 4, 5)  # seeds 4 and 5 give a negative first gaussian draw for the wide law of the third string
 
 _BASELINE_CODE = r"""
 import sys, json, warnings
@@ -54,7 +63,13 @@ out = {}
 for s in json.loads(sys.argv[2]):
     m = gbigsmiles.Molecule(s)
     rec = {"str": str(m), "noext": m.generate_string(False), "generable": bool(m.generable), "gen": {}}
-    for seed in (1, 2):
+    fresh = True
+    # the library's global generator is put into a KNOWN state that differs from the one the exploring workers use:
+    # an output that secretly depends on it differs deterministically
+    from gbigsmiles import core
+    core._GLOBAL_RNG.bit_generator.state = np.random.PCG64(999).state
+    for seed in (1, 2, 4, 5):
+        m = gbigsmiles.Molecule(s)  # a fresh parse for every seed: the baseline has no history at all
         mg = m.generate(rng=np.random.default_rng(seed))
         rec["gen"][str(seed)] = [mg.smiles, round(float(mg.weight), 6)]
     out[s] = rec
@@ -63,12 +78,19 @@ print(json.dumps(out))
 
 
 def baselines(strings):
+    """one SEPARATE fresh interpreter per string: a baseline never shares a process with any other string"""
     env = dict(os.environ)
     env["PYTHONHASHSEED"] = "0"
-    r = subprocess.run([sys.executable, "-c", _BASELINE_CODE, os.path.join(REPO, "src"), json.dumps(strings)], stdout=subprocess.PIPE, stderr=subprocess.PIPE, text=True, env=env, timeout=600)
-    if r.returncode != 0:
-        raise HarnessError("baseline process failed: " + r.stderr[-500:])
-    return json.loads(r.stdout.strip().splitlines()[-1])
+    procs = []
+    for s in strings:
+        procs.append((s, subprocess.Popen([sys.executable, "-c", _BASELINE_CODE, os.path.join(REPO, "src"), json.dumps([s])], stdout=subprocess.PIPE, stderr=subprocess.PIPE, text=True, env=env)))
+    out = {}
+    for s, p in procs:
+        so, se = p.communicate(timeout=900)
+        if p.returncode != 0:
+            raise HarnessError("baseline process failed: " + se[-500:])
+        out.update(json.loads(so.strip().splitlines()[-1]))
+    return out
 
 
 def enumerate_cases(tier, seed):
@@ -76,13 +98,13 @@ def enumerate_cases(tier, seed):
     strings = STRINGS[:n]
     k = seed % len(strings)
     strings = strings[k:] + strings[:k]
-    base = baselines(strings)
+    base = baselines(strings + [SIBLINGS[s] for s in strings])
     depth = 2 if tier == "quick" else 3
     for s in strings:
         for first in OPS:
             for inst in (0, 1):
-                yield ("histories", {"s": s, "first": [first, inst], "depth": depth, "base": base[s]})
-        yield ("bfs", {"s": s, "depth": 3 if tier == "quick" else 5, "base": base[s]})
+                yield ("histories", {"s": s, "first": [first, inst], "depth": depth, "base": base[s], "sib": SIBLINGS[s], "sib_base": base[SIBLINGS[s]]})
+        yield ("bfs", {"s": s, "depth": 3 if tier == "quick" else 5, "base": base[s], "sib": SIBLINGS[s], "sib_base": base[SIBLINGS[s]]})
 
 
 # ---------------------------------------------------------------------------------------------- fingerprint
@@ -245,13 +267,16 @@ def apply_op(op, objs, inst, s):
         raise HarnessError(op)
 
 
-def invariant(objs, base, res, hist, s):
+def invariant(objs, base, res, hist, s, sib_base=None):
     """returns list of (key, what); evaluates seeded generation etc. on every live object"""
     import numpy as np
 
     out = []
     before = (tuple(fp(o) for o in objs), global_fp())
     for i, o in enumerate(objs):
+        mybase = base
+        if sib_base is not None and getattr(o, "_gbmc_sibling", False):
+            base = sib_base
         try:
             if str(o) != base["str"]:
                 out.append(("printed-form-changed", f"str() of instance {i} is {str(o)!r}, baseline {base['str']!r}"))
@@ -266,6 +291,7 @@ def invariant(objs, base, res, hist, s):
                     out.append(("seeded-generation-differs", f"instance {i}, seed {seed}: {got[0]} ({got[1]}) instead of {base['gen'][str(seed)][0]} ({base['gen'][str(seed)][1]})"))
         except Exception as e:  # noqa
             out.append((f"invariant-raises-{type(e).__name__}", f"instance {i}: {type(e).__name__}: {str(e)[:80]}"))
+        base = mybase
     after = (tuple(fp(o) for o in objs), global_fp())
     if before != after:
         out.append(("generation-mutates-object", "evaluating str / generable / seeded generation changed the structural fingerprint of a parsed object or of the module state"))
@@ -273,7 +299,7 @@ def invariant(objs, base, res, hist, s):
     return out, after
 
 
-def run_history(hist, s, base, res):
+def run_history(hist, s, base, res, sib=None, sib_base=None):
     """replay a history on fresh objects; returns (violations, final state key)"""
     import gbigsmiles
 
@@ -282,6 +308,12 @@ def run_history(hist, s, base, res):
     fp0 = fp(objs[0])
     if fp(objs[1]) != fp0:
         return [("two-parses-differ", "two instances parsed from one string have different fingerprints", 0)], None
+    fps = None
+    if sib is not None:
+        so = gbigsmiles.Molecule(sib)
+        so._gbmc_sibling = True
+        fps = fp(so)
+        objs.append(so)
     key = None
     for step, (op, inst) in enumerate(hist):
         try:
@@ -290,12 +322,12 @@ def run_history(hist, s, base, res):
             raise
         except Exception as e:  # noqa
             return [(f"operation-raises|{op}|{type(e).__name__}", f"{op} on instance {inst} raises {type(e).__name__}: {str(e)[:80]}", step)], None
-        bad, key = invariant(objs, base, res, hist, s)
+        bad, key = invariant(objs, base, res, hist, s, sib_base)
         if bad:
             return [(k, w, step) for k, w in bad], key
         # every parsed object must still look like a fresh parse
         for i, o in enumerate(objs):
-            if fp(o) != fp0:
+            if fp(o) != (fps if getattr(o, "_gbmc_sibling", False) else fp0):
                 return [("parsed-object-changed", f"after {op} the parsed object {i} differs structurally from a fresh parse", step)], key
     return [], key
 
@@ -311,7 +343,7 @@ def eval_case(kind, data):
         for tail in rest:
             hist = [first] + [tuple(x) for x in tail]
             n += 1
-            bad, key = run_history(hist, s, base, res)
+            bad, key = run_history(hist, s, base, res, data.get("sib"), data.get("sib_base"))
             res["traces"] += 1
             if key is not None:
                 states.add(hash(key))
@@ -335,7 +367,7 @@ def eval_case(kind, data):
         for hist in frontier:
             for ev in alphabet:
                 h2 = hist + [ev]
-                bad, key = run_history(h2, s, base, res)
+                bad, key = run_history(h2, s, base, res, data.get("sib"), data.get("sib_base"))
                 ntr += 1
                 res["traces"] += 1
                 for k, w, step in bad:
